@@ -479,6 +479,19 @@ template <class T> static void accum_history(Ctx& c, const char* tn) {
   for (int i = 0; i < nops; ++i, ++done) {
     int op = (int)r.below(20);
     T y;
+    // assignment of a number ("set sum = y": the accumulator then holds exactly y, whatever it held before) and re-construction from a
+    // number, on a USED object; comparisons with a number (consistent with the reported sum).  Added after seeded change C16-r4s1.
+    if (r.below(40) == 0 && i > 0) {
+      T v = r.coin(0.3) ? (T)0 : (T)(r.sign() * r.logu(1e-6, 1e6));
+      if (r.coin(0.7)) { acc = v; if (ops.size() < 200) ops += '='; } else { acc = GeographicLib::Accumulator<T>(v); if (ops.size() < 200) ops += 'C'; }
+      setT(E, v); B = 0; h = vh::hmix(h, (double)v) ^ 0x3d;
+      if (!(acc() == v)) c.viol(std::string("oracle:C16/") + tn + "/accumulator-assignment", cls, J().i("op_index", i).str("ops_prefix", ops).f("assigned", (double)v).f("reported", (double)acc()));
+      T sv = acc(), w2 = r.coin() ? sv : (T)(sv + (T)r.uniform(-1, 1));
+      if (!((acc == w2) == (sv == w2) && (acc != w2) == (sv != w2) && (acc < w2) == (sv < w2) && (acc <= w2) == (sv <= w2) && (acc > w2) == (sv > w2) && (acc >= w2) == (sv >= w2)))
+        c.viol(std::string("law:C16/") + tn + "/accumulator-comparison-inconsistent-with-reported-sum", cls, J().i("op_index", i).f("sum", (double)sv).f("y", (double)w2));
+      c.event("accumulator: assignment / re-construction inside a history");
+      continue;
+    }
     if (style == 0) y = (i & 1) && r.coin(0.7) ? (r.coin(0.3) ? (T)acc() : -last_big * (T)(1 + r.uniform(-1e-3, 1e-3))) : (T)(r.sign() * r.logu(1e-10, 1e10));
     // (in the cancelling style, "y = acc()" followed by -= cancels the leading word exactly and leaves only the low word)
     if (style == 0 && y == (T)acc() && y != 0) op = 12;
